@@ -117,6 +117,10 @@ def r18_2(ctx):
                             if ".types" in txt:
                                 type_aware = True
                                 how = "the default is unwrapped under `%s`" % expr_str(cnd)[:100]
+                                # "Function" must be the prop's *only* type: for `string | (() => string)` Vue still calls a function default as a factory
+                                exact = ".types.len() == 1" in txt.replace("(", "").replace(")", "") or "types.len() == 1" in txt
+                                r.ob("the written function is kept only when Function is the prop's only inferred type", exact, C.mloc(pb, cnd),
+                                     txt[:140] if exact else "`%s` does not require the type set to be exactly {Function}: a prop that may also be a string gets its factory default unwrapped" % txt[:100])
             from .hirflow import disjuncts
             extra = [expr_str(d) for d in disjuncts(n["cond"]) if not re.search(r"\.is_lit\(\)$", expr_str(d)) and ".types" not in expr_str(d)]
             r.ob("key-value default: only literals are emitted as written without looking at the prop's type", not extra, C.mloc(pe, n),
